@@ -4,6 +4,7 @@ import (
 	"fmt"
 	"strings"
 	"sync"
+	"sync/atomic"
 	"testing"
 	"testing/synctest"
 	"time"
@@ -41,8 +42,13 @@ func rcAuth(client int, ct time.Time) types.Authenticator {
 	}
 }
 
+// the name type is a hint, not part of a principal's identity (RFC 4120 6.2; it travels in the unprotected
+// part of the AP-REQ): the same service is named with changing name types from call to call
+var rcSvcCalls int64
+
 func rcSvc(i int) types.PrincipalName {
-	return types.PrincipalName{NameType: 2, NameString: rcServices[i]}
+	nt := []int32{2, 1, 2, 3, 0, 2, 2, 1}[atomic.AddInt64(&rcSvcCalls, 1)%8]
+	return types.PrincipalName{NameType: nt, NameString: rcServices[i]}
 }
 
 func us(t time.Time) int64 { return t.UnixNano() / 1000 }
